@@ -301,7 +301,8 @@ class RefDevice:
         if conn.cid in self.pending_tail:
             return False          # one half-sent packet at a time (a second one would corrupt the stream)
         for _ in range(40):
-            pkt = self.wrap(conn, self.state_frame(ftype=acmodel.FT_REPORT), key)
+            self.last_unsolicited_frame = self.state_frame(ftype=acmodel.FT_REPORT)
+            pkt = self.wrap(conn, self.last_unsolicited_frame, key)
             k = max(1, min(k, len(pkt) - 1))
             # if a flush discards the head, what follows must be marker-free garbage for the next packet
             # to be found (ciphertext contains the marker bytes by chance once in ~450 packets)
